@@ -257,7 +257,11 @@ func (m *runtimeContextManager) ReleaseMem(memAmount uint64) {
 		if memAmount <= m.usedResources.Memory {
 			m.usedResources.Memory -= memAmount
 		} else {
-			panic("Too much mem released")
+			// The memory being released was required in an enclosing context
+			// (e.g. a coroutine created outside a pcall and finishing inside
+			// it), so it is not part of this context's count: there is nothing
+			// more to give back here.  This must not bring the host down.
+			m.usedResources.Memory = 0
 		}
 	}
 }
